@@ -15,7 +15,7 @@ from ..core import Engine, RunResult
 from .. import docgen
 
 CONFIG_KINDS = {"construct", "enable", "disable", "opt_item", "opt_attr", "set", "configure", "render_rule", "use",
-                "bad_config", "ruler", "set_from", "construct_from", "hook", "highlight"}
+                "bad_config", "ruler", "set_from", "construct_from", "hook", "highlight", "enable_only", "at_alt"}
 # ops whose effect on instance j depends on the configuration of ANOTHER instance at that moment; the expectation
 # world then replays the configuration ops of every instance (never the parses)
 CROSS_CONFIG_KINDS = {"set_from", "construct_from", "hook"}
@@ -27,6 +27,7 @@ STATEFUL_DOCS = [
     "~~s~~ <http://x.y> &amp; &#35;\n", "1. a\n\n   b\n2. c\n\n- d\n- e\n",
     "```py\nRAISE\n```\n", "```py a=1\nfine\n```\n\n~~~\nplain\n~~~\n", "`RAISE` x\n", "[a](/l1) ![b](/l2 't') <http://l3.x/>\n",
     "x @! y\n", "```\nok\n```\n\n```js\nRAISE\n```\n\n```\nafter\n```\n",
+    "> quoted\n> - item\n>   @@!\n> more\n", "- a\n- b\n  @@!\n- c\n", "1. x\n\n   > y\n   @@!\n",
 ]
 OPT_VALUES = {"html": [True, False], "typographer": [True, False], "breaks": [True, False], "xhtmlOut": [True, False],
               "langPrefix": ["language-", "l-"], "quotes": ["“”‘’", "«»‹›"], "maxNesting": [2, 5, 20, 100],
@@ -44,6 +45,33 @@ def _marker_render_rule(marker):
             raise ValueError(f"render rule {marker} refuses this token")     # deterministic function of its input
         return f"<{marker}>" + escapeHtml(tokens[idx].content)
     return rule
+
+
+def _tagged_renderer(tag):
+    """A renderer class with per-renderer state (a user subclass of the stock renderer, built through renderer_cls)."""
+    from markdown_it.renderer import RendererHTML
+
+    global _TaggedRenderer
+    if _TaggedRenderer is None:
+        class _Tagged(RendererHTML):
+            def __init__(self, parser=None, tag="?"):
+                super().__init__(parser)
+                self.tag = tag
+
+            def hr(self, tokens, idx, options, env):
+                return f"<hr data-r={self.tag}>\n"
+
+            def renderToken(self, tokens, idx, options, env):
+                out = super().renderToken(tokens, idx, options, env)
+                if tokens[idx].type == "heading_open":
+                    out = out.replace(">", f" data-r={self.tag}>", 1)
+                return out
+        _TaggedRenderer = _Tagged
+    import functools
+    return functools.partial(_TaggedRenderer, tag=tag)
+
+
+_TaggedRenderer = None
 
 
 def _highlighter(mode):
@@ -81,6 +109,8 @@ def _plugin(md, tag, where):
             pos = state.bMarks[startLine] + state.tShift[startLine]
             if state.src[pos:pos + 2] != "@@" or state.is_code_block(startLine):
                 return False
+            if state.src[pos:pos + 3] == "@@!":
+                raise ValueError(f"plugin {tag} refuses '@@!'")                # deterministic function of its input
             if silent:
                 return True
             t = state.push("html_block", "", 0)
@@ -137,13 +167,28 @@ def gen(rng: random.Random, tier: str) -> dict:
         o.update(_gen_options(rng, 0.4))
         user_options.append(o)
     ops = []
+    tagged = rng.random() < 0.2
     for j in range(n_inst):
-        ops.append(["construct", j, _gen_preset_ref(rng, n_user), _gen_options(rng) if rng.random() < 0.6 else None])
+        ops.append(["construct", j, _gen_preset_ref(rng, n_user), _gen_options(rng) if rng.random() < 0.6 else None,
+                    f"r{j}x{rng.randrange(1000)}" if tagged else None])
     pid = 0
     for _ in range(rng.randint(2, 16)):
         j = rng.randrange(n_inst)
         r = rng.random()
-        if r < 0.45:
+        if r < 0.05:
+            # temporary rules around one parse - the documented use of reset_rules - or an enableOnly on one ruler
+            if rng.random() < 0.6:
+                body = [[rng.choice(["enable", "disable"]), rng.sample(RULE_POOL, rng.randint(1, 3))]
+                        for _ in range(rng.randint(0, 2))]
+                ops.append(["reset_block", j, body, _gen_doc(rng) if rng.random() < 0.8 else None])
+            else:
+                which = rng.choice(["inline2", "core", "inline"])
+                keep = {"inline2": ["balance_pairs", "strikethrough", "emphasis", "fragments_join"],
+                        "core": ["replacements", "smartquotes", "linkify"],
+                        "inline": ["newline", "escape", "backticks", "strikethrough", "emphasis", "link", "image", "autolink",
+                                   "html_inline", "entity"]}[which]
+                ops.append(["enable_only", j, which, rng.sample(keep, rng.choice([0, 0, 1, 2, len(keep)]))])
+        elif r < 0.45:
             m = rng.choice(["render", "render", "parse", "renderInline", "parseInline"])
             d = docgen.inline_source(rng) if "Inline" in m else _gen_doc(rng)
             prev = [op for op in ops if op[0] == "call"]
@@ -190,6 +235,8 @@ def gen(rng: random.Random, tier: str) -> dict:
                 ops.append(["set_from", j, i])
             else:
                 ops.append(["construct_from", j, _gen_preset_ref(rng, n_user), i])
+        elif r < 0.968 and False:
+            pass
         elif r < 0.972:
             # a user hook on instance j that uses instance i (possibly j itself) while j is parsing
             i = rng.randrange(n_inst)
@@ -197,6 +244,10 @@ def gen(rng: random.Random, tier: str) -> dict:
                         rng.choice(["[q](/hooked 'h') `c`", "*e* [z][foo] <http://in.hook/>", "x"])])
         elif r < 0.98:
             ops.append(["highlight", j, rng.randrange(3)])
+        elif r < 0.984:
+            # a stock block rule re-registered with ITS OWN function but another terminator-chain membership
+            ops.append(["at_alt", j, rng.choice(["hr", "fence", "heading", "blockquote", "list", "code"]),
+                        rng.sample(["paragraph", "reference", "blockquote", "list"], rng.randint(0, 3))])
         elif r < 0.99:
             # the caller scribbles over what an earlier call returned (tokens, their attrs/meta/map/children, the env):
             # results belong to the caller, so this must not reach any later call
@@ -210,7 +261,8 @@ def gen(rng: random.Random, tier: str) -> dict:
         if op[0] in ("highlight", "render_rule", "use"):
             armed = True
         elif armed and op[0] == "call" and "Inline" not in op[2] and rng.random() < 0.35:
-            op[3] = op[3] + rng.choice(["\n```py\nRAISE\n```\n", "\n```py a=1\nfine\n```\n", "\nx @! y `RAISE`\n", "\n`RAISE`\n"])
+            op[3] = op[3] + rng.choice(["\n```py\nRAISE\n```\n", "\n```py a=1\nfine\n```\n", "\nx @! y `RAISE`\n", "\n`RAISE`\n",
+                                        "\n> q\n> - i\n>   @@!\n> z\n", "\n- a\n- b\n  @@!\n"])
     probes = []
     seen_docs = [op for op in ops if op[0] == "call"]
     for _ in range(rng.randint(1, 4)):
@@ -246,6 +298,7 @@ class _World:
         self.inst: dict[int, object] = {}
         self.last: dict[int, tuple] = {}      # instance -> (value, env) of its most recent successful call
         self.hook_depth = 0
+        self.tags: dict[int, str] = {}        # instance -> tag of its stateful renderer
         mk = collections.UserDict if rec.get("env_type") == "userdict" else dict
         self.envs = [mk() for _ in range(rec["n_env"])]
 
@@ -268,10 +321,16 @@ class _World:
                 p = self.preset(op[2])
                 if upd is None:
                     upd = {"linkify": False}
-                self.inst[j] = MarkdownIt(p, upd)
+                if len(op) > 4 and op[4]:
+                    self.inst[j] = MarkdownIt(p, upd, renderer_cls=_tagged_renderer(op[4]))
+                    self.tags[j] = op[4]
+                else:
+                    self.inst[j] = MarkdownIt(p, upd)
+                    self.tags.pop(j, None)
                 return None
             if kind == "construct_from":
                 self.inst[j] = MarkdownIt(self.preset(op[2]), self.inst[op[3]].options)
+                self.tags.pop(j, None)
                 return None
             md = self.inst[j]
             if kind == "hook":
@@ -289,6 +348,19 @@ class _World:
                 setattr(md, op[2], hook)
             elif kind == "highlight":
                 md.options["highlight"] = _highlighter(op[2])
+            elif kind == "at_alt":
+                r = md.block.ruler
+                names = r.get_all_rules()
+                act = r.get_active_rules()
+                r.enableOnly(names)
+                fn = r.getRules("")[names.index(op[2])]
+                r.enableOnly(act)
+                r.at(op[2], fn, {"alt": list(op[3])})
+            elif kind == "enable_only":
+                r = md.inline.ruler2 if op[2] == "inline2" else md[op[2]].ruler
+                # the rules that guarantee progress / form the pipeline stay on (C01's supported configurations)
+                must = {"core": ["normalize", "block", "inline", "text_join"], "inline": ["text"], "inline2": []}[op[2]]
+                r.enableOnly([x for x in must if x in r.get_all_rules()] + list(op[3]), True)
             elif kind == "set_from":
                 md.set(self.inst[op[2]].options)
             elif kind in ("enable", "disable"):
@@ -405,6 +477,24 @@ def _call(md, method, doc, env, keep: list | None = None):
     return ["ok", v]
 
 
+def _foreign_tag(out, tag) -> str | None:
+    """The harness's own knowledge of its own renderer subclass: whatever `data-r=` an instance emits is ITS tag."""
+    if out[0] != "ok" or not isinstance(out[1], str):
+        return None
+    i = 0
+    while True:
+        i = out[1].find("data-r=", i)
+        if i < 0:
+            return None
+        j = i + 7
+        k = j
+        while k < len(out[1]) and out[1][k] not in ">\n ":
+            k += 1
+        if out[1][j:k] != tag:
+            return out[1][j:k]
+        i = k
+
+
 def _presets_observed():
     """The shared presets as a user can observe them: what a fresh instance of each name looks like."""
     from markdown_it import MarkdownIt
@@ -484,6 +574,18 @@ def execute(rec: dict, res: RunResult) -> None:
             elif kind in CROSS_CONFIG_KINDS and e is None:
                 res.count("options_object_handed_to_other_instance")
             touched = {j}
+        elif kind == "reset_block":
+            md = w.inst[j]
+            out = None
+            with md.reset_rules():
+                for bk, names in op[2]:
+                    getattr(md, bk)(list(names), True)
+                if op[3] is not None:
+                    out = _call(md, "render", op[3], {})
+            res.events.append([k, "reset_block", j, out])
+            res.count("reset_rules_block_around_a_parse")
+            state_bearing += 1
+            touched = set()
         elif kind == "mutate":
             last = w.last.get(j)
             n = _scribble(last[0], last[1], op[2]) if last else 0
@@ -507,6 +609,13 @@ def execute(rec: dict, res: RunResult) -> None:
             if keep:
                 w.last[j] = (keep[0], env)
             res.events.append([k, "call", j, method, out])
+            if j in w.tags:
+                res.count("stateful_renderer_class_used")
+                ft = _foreign_tag(out, w.tags[j])
+                if ft is not None:
+                    res.fail("CROSS_INSTANCE", f"op {k}: instance {j} (renderer tag {w.tags[j]}) rendered with the state of "
+                                               f"another renderer (tag {ft}): {str(out)[:300]}", "renderer-state")
+                    return
             if out[0] == "exc" and out[1] == "ValueError" and "refuses" in out[2]:
                 res.count("user_callback_raised_in_history")
             state_bearing += 1
@@ -576,7 +685,8 @@ class C12(Engine):
                        "option_route_ctor", "option_route_item", "option_route_attr", "failed_documented_call",
                        "render_rule_added", "definitions_parsed_in_history", "caller_mutated_returned_objects",
                        "options_object_handed_to_other_instance", "link_hook_using_an_instance_installed",
-                       "raising_highlighter_installed", "user_callback_raised_in_history"]
+                       "raising_highlighter_installed", "user_callback_raised_in_history", "reset_rules_block_around_a_parse",
+                       "stateful_renderer_class_used"]
 
     def budget(self, tier):
         if tier == "quick":
